@@ -291,6 +291,8 @@ def showEntry : Entry → String
 structure Parsed where
   classes : List ClassDecl := []
   objClass : Dict Obj Nat := []
+  /-- an `__events__` mapping stored on the instance itself (it hides the class's) -/
+  objEvents : Dict Obj Mapping := []
   reactions : Dict (Obj × String × Nat) (List Op) := []
   hints : List Obj := []
   ops : List Op := []
@@ -313,9 +315,16 @@ def parseLine (p : Parsed) (line : String) : Parsed :=
         { p with classes := p.classes ++ [{ bases := bs, names := splitList ns, kw := kw, over := ov }] }
       else { p with bad := true }
     | _, _, _, _, _ => { p with bad := true }
-  | "obj" :: o :: c :: _ =>
+  | "obj" :: o :: c :: rest =>
     match o.toNat?, (stripPrefix "class=" c).bind String.toNat? with
-    | some o, some c => { p with objClass := Dict.set p.objClass o c }
+    | some o, some c =>
+      let p := { p with objClass := Dict.set p.objClass o c }
+      match rest.filterMap (stripPrefix "ev=") with
+      | [] => p
+      | e :: _ =>
+        match parsePairs e with
+        | some m => { p with objEvents := Dict.set p.objEvents o m }
+        | none => { p with bad := true }
     | _, _ => { p with bad := true }
   | "react" :: o :: m :: k :: ":" :: rest =>
     match o.toNat?, k.toNat?, parseOps rest with
@@ -350,9 +359,13 @@ def implClass (cs : List ClassDecl) (tbl : List (Option Mapping)) (m : String) :
         | some b => implClass cs tbl m fuel b
         | none => "R"
 
+/-- a Python dict built from pairs: later pairs win, keys are unique -/
+def dictOfPairs (m : Mapping) : Mapping := m.foldl (fun d kv => Dict.set d kv.1 kv.2) []
+
 def Parsed.universe (p : Parsed) : Universe :=
   let tbl := classTable p.classes
-  { mapping := fun o => ((Dict.get? p.objClass o).bind (fun c => tbl[c]?)).join
+  { mapping := fun o => ((Dict.get? p.objEvents o).map dictOfPairs).orElse fun _ =>
+      ((Dict.get? p.objClass o).bind (fun c => tbl[c]?)).join
     impl := fun o m =>
       match Dict.get? p.objClass o with
       | some c => m ++ "@" ++ implClass p.classes tbl m (p.classes.length + 1) c
